@@ -3,8 +3,8 @@
    Model: Css/Sel.v (port of /repo/css/selector Match / Specificity), Css/SelParse.v
    (parser.go), Css/SelPrint.v (serialize.go).  Specification: Css/SelSpec.v
    (Selectors 4 as relations).  Check/C05.v ties the model to /repo on every run. *)
-From Verif Require Import Css.Sel Css.SelSpec Css.SelProofs.
-From Verif Require Import Css.SelParse Css.SelParseProofs Css.SelPrint Css.SelRoundtrip Css.SelRoundtripProofs.
+From Verif Require Import Css.Sel Css.SelSpec Css.SelWitness Css.SelProofs.
+From Verif Require Import Css.SelParse Css.SelParseProofs Css.SelParseNormal Css.SelPrint Css.SelRoundtrip Css.SelRoundtripProofs.
 From Coq Require Import ZArith NArith List.
 Import ListNotations.
 
@@ -44,20 +44,20 @@ Definition C05_matches_spec_statement : Prop :=
 (* (1) :has() whose argument has a combinator is evaluated against the whole document,
    not anchored below the :has element: div:has(section p) in <section><div><p> *)
 Theorem C05_has_relative_refuted :
-  exists d s p, dom_wf d /\ matches d s p = true /\ ~ spec_matches d s p.
+  dom_wf w_doc1 /\ matches w_doc1 w_sel1 w_path1 = true /\ ~ spec_matches w_doc1 w_sel1 w_path1.
 Proof. exact has_relative_refuted. Qed.
 Print Assumptions C05_has_relative_refuted.
 
 (* (2) [a^=v] [a$=v] [a*=v] never match a blank attribute value: [title^=" "] on title="  " *)
 Theorem C05_blank_attr_refuted :
-  exists d s p, dom_wf d /\ matches d s p = false /\ spec_matches d s p.
+  dom_wf w_doc2 /\ matches w_doc2 w_sel2 w_path2 = false /\ spec_matches w_doc2 w_sel2 w_path2.
 Proof. exact blank_attr_refuted. Qed.
 Print Assumptions C05_blank_attr_refuted.
 
 Theorem C05_matches_spec_statement_refuted : ~ C05_matches_spec_statement.
 Proof.
-  intros H. destruct has_relative_refuted as [d [s [p [Hwf [Hm Hn]]]]].
-  apply Hn. apply (H d s p Hwf). exact Hm.
+  intros H. destruct has_relative_refuted as [Hwf [Hm Hn]].
+  apply Hn. apply (H _ _ _ Hwf). exact Hm.
 Qed.
 Print Assumptions C05_matches_spec_statement_refuted.
 
@@ -73,7 +73,7 @@ Print Assumptions C05_dom_wfb_sound.
 
 Example C05_matches_spec_inhabited :
   dom_wf w_doc1 /\ sel_supported w_doc1 (SCombined (STag t_section) CDesc (SCompound [STag t_p; SNth (-1) 1 false false] [])) /\
-  matches w_doc1 (SCombined (STag t_section) CDesc (SCompound [STag t_p; SNth (-1) 1 false false] [])) [0; 0; 0; 0]%nat = true.
+  matches w_doc1 (SCombined (STag t_section) CDesc (SCompound [STag t_p; SNth (-1) 1 false false] [])) (0%nat :: w_path1) = true.
 Proof. exact matches_spec_inhabited. Qed.
 
 (* ---- specificity = (ids, classes+attributes+pseudo-classes, types+pseudo-elements),
@@ -114,6 +114,16 @@ Print Assumptions C05_sel_parse_no_panic.
    Full statement, over every selector of the shape the parser produces: *)
 Definition C05_parse_print_roundtrip_statement : Prop :=
   forall g : list sel, normal_group g = true -> parse_group (print_group g) = Ok (Some g).
+
+(* the parser only returns groups in that normal form, so the statement covers every String() call on a parsed selector *)
+Theorem C05_parse_normal : forall (s : str) (g : list sel), parse_group s = Ok (Some g) -> normal_group g = true.
+Proof. exact parse_group_normal. Qed.
+Print Assumptions C05_parse_normal.
+
+Theorem C05_roundtrip_of_parsed : C05_parse_print_roundtrip_statement ->
+  forall (s : str) (g : list sel), parse_group s = Ok (Some g) -> parse_group (print_group g) = Ok (Some g).
+Proof. intros H s g Hg. apply H. exact (parse_group_normal s g Hg). Qed.
+Print Assumptions C05_roundtrip_of_parsed.
 
 (* proved for the explicit family SelRoundtrip.samples (20 526 selector groups: every simple
    selector over alphabets exercising each escaping rule, compounds, all combinators,
